@@ -231,6 +231,12 @@ def run(case: dict, ctx) -> dict:
             if s.tell() != pos:
                 fail("read_sectors moved the byte position", {"tell": s.tell(), "expected": pos})
         cnt["ops"] = cnt.get("ops", 0) + 1
+    for anc, p_ in getattr(op, "lower", []):
+        cnt["ancestor_positions_checked"] = cnt.get("ancestor_positions_checked", 0) + 1
+        if anc.tell() != p_:
+            res["viol"].append({"what": "reading a child moved the position of an ancestor stream the caller holds", "mech": MECH,
+                                "detail": {"ancestor_position_before": p_, "after": anc.tell(), "kind": case["kind"]}})
+            break
     for h in op.handles:
         if getattr(h, "mutations", None):
             res["viol"].append({"what": "handle mutated", "mech": "c09.handle", "detail": {"m": h.mutations[:3]}})
